@@ -287,6 +287,9 @@ fn selftest() -> (u64, u64) {
 
 pub fn check(tier: Tier) -> i32 {
     let started = Instant::now();
+    if !super::c01_c02::scratch_usable() {
+        return 2;
+    }
     let maxn = tier.pick(4, 5);
     let mut cases: Vec<Case> = vec![];
     for ty in ALL13 {
